@@ -151,6 +151,9 @@ type caseF struct {
 	ObjHdrs  []hdrF   `json:"obj_hdrs"`
 	Binary   bool     `json:"binary"` // GET: header delivered as binary (storage path) before the writer
 	Forced   bool     `json:"forced"` // from the deterministic table-selection matrix
+	// annotations for the input-distribution histograms (not observables, not model inputs)
+	BearerBit  bool `json:"bearer_bit"` // basic ACL allows bearer rules for the effective operation
+	Extendable bool `json:"extendable"`
 	Obs      obsF     `json:"obs"`
 }
 
@@ -805,6 +808,7 @@ func aclMain(args []string) {
 		var b acl.Basic
 		b.FromBits(mask)
 		cn.SetBasicACL(b)
+		c.BearerBit, c.Extendable = b.AllowedBearerRules(likely), b.Extendable()
 		var pp netmap.PlacementPolicy
 		pp.SetReplicas([]netmap.ReplicaDescriptor{{}})
 		cn.SetPlacementPolicy(pp)
